@@ -119,6 +119,8 @@ impl MutexPlayerRecurse for MutexRegretInfoset {
             .iter()
             .zip(self.cum_strat.lock().unwrap().iter_mut())
         {
+            #[cfg(feature = "verif-hooks")]
+            crate::verif::yield_point();
             *cum += prob * val;
         }
     }
